@@ -113,6 +113,11 @@ def run(rp):
                 return {"confirmed": False, "why": f"model does not satisfy requires natively: {r}"}
         except Exception as e:
             return {"confirmed": False, "why": f"requires not evaluable natively: {r}: {type(e).__name__}: {e}"}
+    for g, cl in (getattr(c, "ghost_init", None) or {}).items():
+        try:
+            N.GHOST[g] = N.eval_clause(cl, env, {})  # ghost variables initialised from the arguments at entry
+        except Exception as e:  # noqa: BLE001
+            return {"confirmed": False, "why": f"ghost_init {g} not evaluable natively: {type(e).__name__}: {e}"}
     clauses = list(c.ensures.values()) + list(c.raises_ensures.values())
     olds = N.capture_olds(clauses, env)
     raised = None
